@@ -37,12 +37,19 @@ def typedecl(rng):
     return ['subint', ids(rng, 1, 1), rng.randint(-5, 5), rng.randint(0, 300)]
 
 
+def itypedecl(rng):
+    """an item of an interface's types list: enum, subint, or an item of a class the parser does not know (skipped)"""
+    if rng.random() < 0.2:
+        return ['tother', rng.choice(['type-alias', 'extern', 'bool', 'int', 'Enum', 'enums', 'sub-int', '', 'interface'])]
+    return typedecl(rng)
+
+
 def decl(rng, depth, maxdepth):
     k = rng.random()
     if k < 0.18 and depth < maxdepth:
         return ['ns', ids(rng, 1, 3), [decl(rng, depth + 1, maxdepth) for _ in range(rng.choice([0, 1, 2, 3, 4]))]]
     if k < 0.34:
-        return ['itf', ids(rng, 1, 1), [typedecl(rng) for _ in range(rng.choice([0, 0, 1, 2, 3]))],
+        return ['itf', ids(rng, 1, 1), [itypedecl(rng) for _ in range(rng.choice([0, 0, 1, 2, 3]))],
                 [event(rng) for _ in range(rng.choice([0, 1, 2, 4, 6]))]]
     if k < 0.46:
         return ['comp', ids(rng, 1, 1), [port(rng) for _ in range(rng.choice([0, 1, 2, 3, 5]))]]
@@ -120,6 +127,8 @@ FDIR = {'in': 0, 'out': 1, 'inout': 2}
 
 
 def type_sx(t):
+    if t[0] == 'tother':
+        return [2, t[1]]
     return [0, t[1], list(t[2])] if t[0] == 'enum' else [1, t[1], t[2], t[3]]
 
 
